@@ -734,7 +734,7 @@ def rule_R8index(text, applied, arg=None):
     to the stand-in's `vindex`, `index` names the hosted `Index::index` of the extracted Arena)."""
     recv, _, meth = arg.partition("=")
     meth = meth or "vindex"
-    t, n = _sub_masked(text, r"&\s*" + re.escape(recv) + r"\[([^\]]+)\]", lambda m, s: f"{recv}.{meth}({m.group(1).strip()})")
+    t, n = _sub_masked(text, r"(?<![\w\.])" + re.escape(recv) + r"\[([^\]]+)\]", lambda m, s: f"(*{recv}.{meth}({m.group(1).strip()}))")
     if n:
         applied.append(f"R8index({arg})x{n}")
     return t
